@@ -567,7 +567,8 @@ def off_axis_conic_sigma_der(c, kappa, r, t, dx, dy=0):
     phi_kernel = (1 + kappa) * csq * aggregate_term
     phi = np.sqrt(1 - phi_kernel)
     notquitephi_kernel = kappa * csq * aggregate_term
-    notquitephi = np.sqrt(1 + notquitephi_kernel)
+    # same sign as the denominator of off_axis_conic_sigma: sqrt(1 - kappa c^2 A)
+    notquitephi = np.sqrt(1 - notquitephi_kernel)
 
     num = csq * (1 + kappa) * ddr_oblique * notquitephi
     den = 2 * (1 - phi_kernel) ** (3/2)
@@ -576,7 +577,8 @@ def off_axis_conic_sigma_der(c, kappa, r, t, dx, dy=0):
     num = csq * kappa * ddr_oblique
     den = 2 * phi * notquitephi
     term2 = num / den
-    dr = term1 + term2
+    # 1/sigma = N/phi, so d(1/sigma) = -N phi'/phi^2 + N'/phi; term2 is -N'/phi
+    dr = term1 - term2
 
     # d/dt
     num = csq * (1+kappa) * ddt_oblique_ * notquitephi
@@ -586,7 +588,7 @@ def off_axis_conic_sigma_der(c, kappa, r, t, dx, dy=0):
     num = csq * kappa * ddt_oblique_
     den = phi * notquitephi
     term2 = num / den
-    dt = term1 + term2  # minus in writing, but sine/cosine
+    dt = term1 - term2
     return dr, dt
 
 
